@@ -8,6 +8,8 @@ from concurrent.futures import ThreadPoolExecutor
 
 VERIF = os.path.dirname(os.path.dirname(os.path.abspath(__file__)))
 REPO = os.environ.get("VERIF_REPO", "/repo")
+# Mutant evaluation in scratch worktrees: evidence/replays of such runs must not clobber the real ones.
+OUTDIR = os.environ.get("VERIF_OUT", VERIF)
 NCPU = min(16, os.cpu_count() or 4)
 GUARD = "RWEATHER_TINYJAMBU_VERIF"
 
@@ -294,14 +296,14 @@ class Ctx:
         known = load_known()
         exit_code = 0
         printed = []
-        os.makedirs(VERIF + "/replays", exist_ok=True)
+        os.makedirs(OUTDIR + "/replays", exist_ok=True)
         for key, desc in sorted(self.viol.items()):
             kf = match_known(known, self.pid, key)
             if kf:
                 printed.append("KNOWN-FINDING: property=%s %s" % (self.pid, kf["what"]))
                 continue
             h = hashlib.sha1((self.pid + key).encode()).hexdigest()[:10]
-            path = "%s/replays/%s-%s.json" % (VERIF, self.pid, h)
+            path = "%s/replays/%s-%s.json" % (OUTDIR, self.pid, h)
             with open(path, "w") as f:
                 json.dump({"property": self.pid, "key": key, "seed": self.seed, "tier": self.tier, "descriptor": desc}, f, indent=1, default=str)
             printed.append("VIOLATION property=%s replay=%s" % (self.pid, path))
@@ -336,11 +338,11 @@ class Ctx:
               "coverage": cov, "assumptions": self.assumptions, "wall_s": round(wall, 2),
               "violations": len([p for p in printed if p.startswith("VIOLATION")])}
         if self.replay is None:
-            os.makedirs(VERIF + "/evidence", exist_ok=True)
-            tmp = "%s/evidence/.%s.tmp" % (VERIF, self.pid)
+            os.makedirs(OUTDIR + "/evidence", exist_ok=True)
+            tmp = "%s/evidence/.%s.tmp" % (OUTDIR, self.pid)
             with open(tmp, "w") as f:
                 json.dump(ev, f, indent=1, default=str)
-            os.replace(tmp, "%s/evidence/%s.json" % (VERIF, self.pid))
+            os.replace(tmp, "%s/evidence/%s.json" % (OUTDIR, self.pid))
         for l in printed:
             print(l)
         for l in self.inconclusive:
